@@ -96,9 +96,22 @@ var c17Run = register("C17", "doc", c17Check)
 var elemTemplates = []string{`"s"`, `"ab"`, `1`, `-1.5`, `true`, `null`, `[]`, `{}`, `{"a":1}`, `[1]`, `"\n"`, `""`, `12345678901234567890`, `[[]]`, `{"a":{"b":[]}}`, `false`, `0`, `"é"`, `1e5`}
 
 func genShape(t *rapid.T) ([]byte, string) {
-	kind := rapid.IntRange(0, 7).Draw(t, "shape")
+	kind := rapid.IntRange(0, 8).Draw(t, "shape")
 	var b bytes.Buffer
+	if kind == 8 && rapid.IntRange(0, 2).Draw(t, "fewerhuge") != 0 {
+		kind = 6
+	}
 	switch kind {
+	case 8: // one very long string (the string buffer has to grow for it) between ordinary strings
+		l := []int{1 << 16, 1 << 18, 1 << 20, 1<<20 + 1<<19, 1 << 21}[rapid.IntRange(0, 4).Draw(t, "hugelen")] + rapid.IntRange(-70, 70).Draw(t, "hugedelta")
+		b.WriteString(`{"first":"v1\n","list":["a","b\t"],"big":"`)
+		if rapid.Bool().Draw(t, "hugeesc") {
+			b.WriteString(`\n`) // an escape: the string is copied to the string buffer in no-copy mode as well
+		}
+		b.WriteString(strings.Repeat("0123456789abcdef", l/16))
+		b.WriteString(strings.Repeat("z", l%16))
+		b.WriteString(`","after":"x\\","last":["y"]}`)
+		return b.Bytes(), "hugeString"
 	case 0, 1: // wide array around index-buffer boundaries
 		k := rapid.IntRange(1, 20).Draw(t, "bufk")
 		if rapid.IntRange(0, 3).Draw(t, "kone") != 0 {
